@@ -103,15 +103,16 @@ Fixpoint value_eqb (a b : value) : bool :=
 (* decimal integers: printing, and Python's int(str) grammar                                          *)
 
 Definition digit_char (d : Z) : ascii := ascii_of_nat (48 + Z.to_nat d)%nat.
-Fixpoint digits_le (fuel : nat) (n : Z) : list Z :=
+(* most significant digit first; fuel = number of binary digits *)
+Fixpoint digits_be (fuel : nat) (n : Z) (acc : list Z) : list Z :=
   match fuel with
-  | O => []
-  | S f => if n <? 10 then [n] else (n mod 10) :: digits_le f (n / 10)
+  | O => acc
+  | S f => if n <? 10 then n :: acc else digits_be f (n / 10) (n mod 10 :: acc)
   end.
 Fixpoint string_of_chars (l : list ascii) : string :=
   match l with [] => "" | a :: r => String a (string_of_chars r) end.
 Definition nat_dec (n : Z) : string :=
-  string_of_chars (map digit_char (rev (digits_le (S (Z.to_nat (Z.log2 n))) n))).
+  string_of_chars (map digit_char (digits_be (S (Z.to_nat (Z.log2 n))) n [])).
 Definition Z_to_dec (z : Z) : string :=
   if z <? 0 then String "-" (nat_dec (- z)) else nat_dec z.
 
